@@ -286,8 +286,8 @@ pub struct AnimSection {
 impl AnimSection {
     /// Upper bound for the number of elements reserved up front from a count stored in the file
     ///
-    /// The reader is not seekable here, so counts cannot be compared with the size of the
-    /// input. Larger arrays grow while their data is actually being read.
+    /// The size of the input is not known here, so counts cannot be compared with it.
+    /// Larger arrays grow while their data is actually being read.
     const MAX_PREALLOCATED_ELEMENTS: usize = 1024;
 
     /// Capacity to reserve for `count` elements announced by the file
@@ -296,7 +296,12 @@ impl AnimSection {
     }
 
     /// Parse an animation section from a reader
-    pub fn parse<R: Read>(reader: &mut R, size: u32) -> Result<Self> {
+    ///
+    /// `size` is the size of the whole section: header, bone offset table and the data of the
+    /// animated bones. The offsets in the table are positions in the stream, as written by
+    /// [`AnimSection::write`].
+    pub fn parse<R: Read + Seek>(reader: &mut R, size: u32) -> Result<Self> {
+        let section_start = reader.stream_position()?;
         let header = AnimSectionHeader::parse(reader)?;
 
         // Determine the bone count
@@ -307,12 +312,36 @@ impl AnimSection {
                 size, header_size
             ))
         })?;
-        let bone_count = remaining_size / 4; // Each bone animation reference is 4 bytes
+        // Each bone animation reference is 4 bytes. The offset table fills the section only
+        // when no bone is animated; otherwise it ends where the data of the first animated
+        // bone starts, which is the first non-zero offset.
+        let max_bone_count = remaining_size / 4;
+        let mut bone_count = max_bone_count;
+        let mut table_end_known = false;
 
         // Read bone animation offsets
         let mut bone_offsets = Vec::with_capacity(Self::bounded_capacity(bone_count));
-        for _ in 0..bone_count {
-            bone_offsets.push(reader.read_u32_le()?);
+        while (bone_offsets.len() as u32) < bone_count {
+            let offset = reader.read_u32_le()?;
+            bone_offsets.push(offset);
+
+            if offset > 0 && !table_end_known {
+                table_end_known = true;
+                let table_start = section_start + header_size as u64;
+                bone_count = (offset as u64)
+                    .checked_sub(table_start)
+                    .filter(|table_size| table_size % 4 == 0)
+                    .map(|table_size| table_size / 4)
+                    .filter(|&count| {
+                        count >= bone_offsets.len() as u64 && count <= max_bone_count as u64
+                    })
+                    .ok_or_else(|| {
+                        M2Error::ParseError(format!(
+                            "Bone animation offset {} does not follow the offset table of the section at {} with size {}",
+                            offset, section_start, size
+                        ))
+                    })? as u32;
+            }
         }
 
         // Read bone animations
